@@ -79,6 +79,9 @@ type Node struct {
 	factoryID int64
 	asmRound  basics.Round // block factory: assemblies of the current round so far (survives crashes, like a clock)
 	asmCount  int64
+	stimmed   bool // this step handed the node's main loop an event; stimSnap = its demux.next count before that
+	stimSnap  int
+	stimInst  *inst
 	holdRound basics.Round // "hold" fault: cert-step votes and bundles of this round addressed to the node are delayed ...
 	holdUntil int          // ... until this scheduler step (the node lags one round behind while receiving next-round traffic)
 	persisted []persistRow // C02: every state ever persisted to this node's crash DB, as pending attests
@@ -153,6 +156,7 @@ type Sim struct {
 	curHseq      int64
 	shadowSeq    int
 	hunt         *hunt
+	weightCache  map[string]uint64
 	huntSeen     map[string]*huntObs
 	lastNext     map[int]lastNextRec
 	nodePer      map[int]lastNextRec
@@ -209,6 +213,60 @@ func (s *Sim) violate(prop, oracle, key, detail string) {
 }
 
 func (s *Sim) stat(k string, d int64) { s.stats[k] += d }
+
+func (s *Sim) stalledNodes() []*Node {
+	var l []*Node
+	for _, n := range s.nodes {
+		in := n.cur
+		if in == nil || !n.alive || !n.led.pendingFlush() {
+			continue
+		}
+		in.mu.Lock()
+		// the main loop was handed an event (timer / message) in this step and has not come back to demux.next
+		st := !in.dead && !in.crashReq && !in.zombie && n.stimmed && n.stimInst == in && in.seamCnt[seamWaitDemux] == n.stimSnap
+		in.mu.Unlock()
+		if st {
+			l = append(l, n)
+		}
+	}
+	return l
+}
+
+// quiesce lets the bubble settle, then opens the persistence gates (simLedger.gates) one at a time, each
+// followed by another settle, until no persist is waiting.
+func (s *Sim) quiesce() {
+	synctest.Wait()
+	for i := 0; i < 100000; i++ {
+		opened := false
+		for _, n := range s.nodes {
+			if n.led.openGate() {
+				opened = true
+				break
+			}
+		}
+		if !opened && s.twin != nil && s.twin.node.led.openGate() {
+			opened = true
+		}
+		if !opened {
+			// A main loop that is not back in its select although the bubble is quiescent is blocked on the
+			// persistence queue (two persists already wait behind a slow ledger flush). Messages delivered now
+			// would pile up unread and be consumed in a race once the flush comes. The disk catches up first.
+			for _, n := range s.stalledNodes() {
+				k := n.led.flush()
+				s.twinFlush(n)
+				s.log.Add("flush n%d released=%d (main loop blocked on the persistence queue)", n.id, k)
+				s.stat("flush_forced_by_stall", 1)
+				opened = true
+				break
+			}
+		}
+		if !opened {
+			return
+		}
+		synctest.Wait()
+	}
+	s.harness = "quiesce: persistence gates never drained"
+}
 
 var runCounter int
 
@@ -359,6 +417,9 @@ var discard = io.Discard
 func (s *Sim) newLogger() logging.Logger {
 	l := logging.NewLogger()
 	l.SetOutput(discard)
+	if os.Getenv("VERIF_DEBUG_SUTLOG") != "" {
+		l.SetOutput(os.Stderr) // panic-level messages of the system under test (debugging aid)
+	}
 	l.SetLevel(logging.Panic)
 	return l
 }
@@ -477,7 +538,7 @@ func (s *Sim) setup() error {
 			return err
 		}
 		_ = in
-		synctest.Wait()
+		s.quiesce()
 		s.collect()
 	}
 	return nil
@@ -677,6 +738,7 @@ func (s *Sim) finishCrash(n *Node, why string) {
 	n.tmu.Lock()
 	n.pending = map[agreement.TimeoutType]*pendingTimer{}
 	n.tmu.Unlock()
+	n.led.dropGates() // persists of the dead incarnation that were still waiting never happen
 	s.log.Add("  n%d CRASH (%s) next=%d", n.id, why, n.led.next())
 	s.stat("crash", 1)
 	s.stat("crash."+why, 1)
@@ -757,6 +819,7 @@ func (s *Sim) timerNodes() []*Node {
 
 // fireTimer advances node n's clock to its earliest pending deadline and fires that timer.
 func (s *Sim) fireTimer(n *Node) {
+	s.stimulate(n)
 	n.tmu.Lock()
 	var best *pendingTimer
 	for _, typ := range []agreement.TimeoutType{agreement.TimeoutDeadline, agreement.TimeoutFastRecovery, agreement.TimeoutFilter} {
@@ -872,6 +935,9 @@ func (s *Sim) asyncStep() {
 	rA := tp.Choose("step.a", drawN)
 	rB := tp.Choose("step.b", drawN)
 	rC := tp.Choose("step.c", drawN)
+	for _, n := range s.nodes {
+		n.stimmed = false
+	}
 	del := s.deliverable()
 	tn := s.timerNodes()
 	var dead, alive, honestAlive []*Node
@@ -969,7 +1035,12 @@ func (s *Sim) asyncStep() {
 		return
 	case fTrig:
 		n := honestAlive[rA%len(honestAlive)]
-		masks := []uint32{1 << seamSend, 1 << seamSend, 1 << seamWaitPersist, 1 << seamWaitPersist, 1 << seamEnsure, 1 << seamTimer, 1 << seamWaitDemux, 1 << seamAssemble}
+		// Only seams whose call COUNT is schedule-independent may carry a trigger. demux.next returns early -
+		// without asking the ledger or the clock - whenever a prioritised (pseudonode / persistence) event is
+		// already waiting, so the number of wait-demux and timer calls depends on a real race between the
+		// service's goroutines (determinism self-test under load: 2 of 10 seeds diverged in 1 of 12 processes).
+		// Sends, ensures, persists and assemblies happen once per action, in event order.
+		masks := []uint32{1 << seamSend, 1 << seamSend, 1 << seamWaitPersist, 1 << seamWaitPersist, 1 << seamEnsure, 1 << seamSend, 1 << seamEnsure, 1 << seamAssemble}
 		m := masks[rB%len(masks)]
 		k := 1 + rC%12
 		n.cur.mu.Lock()
@@ -1116,8 +1187,19 @@ func (s *Sim) asyncStep() {
 	}
 }
 
+// stimulate notes that node n's main loop is about to be handed an event.
+func (s *Sim) stimulate(n *Node) {
+	if n.cur == nil {
+		return
+	}
+	n.cur.mu.Lock()
+	n.stimmed, n.stimSnap, n.stimInst = true, n.cur.seamCnt[seamWaitDemux], n.cur
+	n.cur.mu.Unlock()
+}
+
 func (s *Sim) deliver(f *flight) {
 	d := s.nodes[f.to]
+	s.stimulate(d)
 	s.tallyDeliver(f.to, f.tag, f.data)
 	ok := d.cur.net.deliver(f.tag, f.from, f.data)
 	if ok {
@@ -1276,7 +1358,7 @@ func (s *Sim) run() {
 			return
 		}
 		s.asyncStep()
-		synctest.Wait()
+		s.quiesce()
 		s.collect()
 		if s.step%4 == 0 {
 			s.states[s.stateDigest()] = true
@@ -1316,5 +1398,5 @@ func (s *Sim) retire(in *inst) {
 			in.hist.Close()
 		}
 	}()
-	synctest.Wait()
+	s.quiesce()
 }
